@@ -197,6 +197,7 @@ def h(
     axis_names: Optional[Iterable[str]] = None,
     dim: Optional[int] = None,
     weights: Optional[ArrayLike] = None,
+    dtype: Optional[DTypeLike] = None,
     **kwargs,
 ) -> HistogramND:
     """Facade function to create n-dimensional histograms.
@@ -251,6 +252,7 @@ def h(
         axis_names=axis_names,
         name=name,
         title=title,
+        dtype=dtype,
     )
 
 
